@@ -15,7 +15,7 @@ for item in "$@"; do
   if ! (cd "$d" && GOFLAGS=-mod=mod GOPROXY=off go build ./... ) >/dev/null 2>&1; then echo "ERROR   $p: build failed"; rm -rf "$d"; continue; fi
   res=""; caught=0
   for prop in ${props//,/ }; do
-    o=$(VERIF_REPO="$d" VERIF_OUT="$out" "$here/check" $prop 2>&1); rc=$?
+    o=$(VERIF_HOME="$here" VERIF_REPO="$d" VERIF_OUT="$out" "$here/check" $prop 2>&1); rc=$?
     nv=$(echo "$o" | grep -c "^VIOLATION"); nr=$(echo "$o" | grep "^VIOLATION" | grep -vc "no-failing-input-found")
     first=$(echo "$o" | grep -E "^(FAILED|VACUOUS|ENGINE-ERROR|MISSING|check failed)" | head -1 | cut -c1-100)
     [ $rc -ne 0 ] && caught=1
